@@ -357,7 +357,7 @@ def check(prop, tier, seed, replay):
     exit_code = 0
     seen_classes = set()
     for f in new_failures:
-        if f["class"] in seen_classes and len(seen_classes) >= 1 and len([1 for v in violations]) >= 5:
+        if f["class"] in seen_classes or len(seen_classes) >= 8:
             continue
         seen_classes.add(f["class"])
         rp = write_replay(prop, "fail-%s" % re.sub(r"[^A-Za-z0-9_.-]", "_", str(f["case"]))[:60],
